@@ -465,7 +465,7 @@ POINT_WHERE = {0: 'lib.httputil.decode_TEXT', 1: 'lib.httputil.decode_TEXT', 2: 
 RAISES = {'decode_header': {'HeaderParseError'}, 'bytes.decode': {'LookupError', 'UnicodeDecodeError', 'UnicodeError', 'ValueError'},
           'SimpleCookie.load': {'CookieError'}, 'json': {'JSONDecodeError', 'ValueError', 'UnicodeDecodeError', 'RecursionError'},
           'b64decode': {'Error', 'ValueError'}, 'str.encode': {'UnicodeEncodeError'}, 'parse_keqv_list': {'ValueError', 'IndexError'},
-          'float': {'ValueError'}, 'int': {'ValueError'}}
+          'float': {'ValueError'}, 'int': {'ValueError'}, 'urlsplit': {'ValueError'}}
 FLAGS_FIXED = [1] * 16
 FLAGS_WRITTEN = [0] * 16
 BROKEN = []
@@ -612,7 +612,11 @@ def model_input(c, flags):
         ck = outcome('SimpleCookie.load', lambda: http.cookies.SimpleCookie().load(v))[1] if is_cookie else None
         return [1, flags, is_cookie, v, dh, ck]
     if kind == 'host':
-        return [2, flags, f[1] is not None, f[2] == 'HTTP/1.1']
+        import urllib.parse
+        so = None
+        if f[1]:
+            so = outcome('urlsplit', lambda: urllib.parse.urlsplit('//' + f[1].replace('\r', '').replace('\n', '')))[1]
+        return [2, flags, f[1] is not None, f[2] == 'HTTP/1.1', so]
     if kind == 'query':
         if re.search(r'(^|[&;])self($|[=&;])', f[1]):
             return None        # collides with the bound argument of every handler: the kw cases cover that
